@@ -77,9 +77,29 @@ def unit_c07_sweep():
                             for u in [None] + list(range(0, n + 2)):
                                 yield (h, n, bad, u)
                                 if bad is not None: yield (h, n, -bad, u)        # the bad row is a blank line (a row without items) instead of a bad cell
+                                if bad is not None and bad > h and u is not None: yield (h, n, ("q", bad), u)      # the bad row breaks the container (unterminated quote): the validate-only API never gets there when it lies behind the N data rows
             cli_count = [0]
             def check(c):
                 h, n, bad, u = c
+                if isinstance(bad, tuple):
+                    k = bad[1]
+                    rows = [[str(j), ('"r%d' % j) if j == k else "r%d" % j] for j in range(1, n + 1)]
+                    text = "".join(",".join(r) + "\n" for r in rows)
+                    reached = k <= h + u          # the validate-only API stops after u data rows, i.e. after row number h + u
+                    try: validio.validate(interface.create_cid_from_string(cid_text(h)), io.StringIO(text), validate_until=u); v_obs = False
+                    except errors.DataError: v_obs = True
+                    if v_obs != reached: return {"expected": "validate() %s (container fault in row %d, limit %d data rows after %d header rows)" % ("raises" if reached else "passes", k, u, h), "observed": "raises" if v_obs else "passes"}
+                    cp = os.path.join(tmp, "cid.csv"); dp = os.path.join(tmp, "data.csv")
+                    with open(cp, "w", encoding="utf-8") as f: f.write(cid_text(h))
+                    with open(dp, "w", encoding="cp1252", newline="") as f: f.write(text)
+                    rc = applications.main(["cutplace", "--until", str(u), cp, dp])
+                    if rc != (1 if reached else 0): return {"expected": "exit %d for --until %d (what validate() with that limit says)" % (1 if reached else 0, u), "observed": "exit %r" % rc}
+                    rd = validio.Reader(interface.create_cid_from_string(cid_text(h)), dp, validate_until=u)
+                    try: rd.validate_rows(); r_obs = False
+                    except errors.DataError: r_obs = True
+                    finally: rd.close()
+                    if r_obs != reached: return {"expected": "Reader.validate_rows() %s" % ("raises" if reached else "passes"), "observed": "raises" if r_obs else "passes"}
+                    return None
                 blank = bad is not None and bad < 0; bad = abs(bad) if bad is not None else None
                 rows = [([] if blank and k == bad else ["x" if k == bad else str(k), "r%d" % k]) for k in range(1, n + 1)]
                 text = "".join(",".join(r) + "\n" for r in rows)
@@ -129,8 +149,8 @@ def unit_c07_sweep():
                         if rc != (1 if reported else 0): return {"expected": "--until -1 behaves like no limit", "observed": "exit %r" % rc}
                 return None
             return [sweep("C07/sweep/header and limit window through rows(), validate() and --until", cases(), check, "bounded",
-                          "header 0-3 x tables of 0-4 rows x a single bad row (a bad cell, or a blank line) at every position (or none) x limit in {none, 0..rows+1} x both APIs (and fixed-width data without line delimiter); command line --until on every 3rd case and every --until 0 case (all in thorough)",
-                          describe=lambda c: {"header": c[0], "rows": c[1], "bad_row": abs(c[2]) if c[2] else None, "bad_row_is_a_blank_line": bool(c[2] and c[2] < 0), "validate_until": c[3]}, function="validio.rows / validio.validate / applications.main", unit="C07.sweep")]
+                          "header 0-3 x tables of 0-4 rows x a single bad row (a bad cell, a blank line, or an unterminated quote for the validate-only APIs) at every position (or none) x limit in {none, 0..rows+1} x both APIs (and fixed-width data without line delimiter); command line --until on every 3rd case and every --until 0 case (all in thorough)",
+                          describe=lambda c: {"header": c[0], "rows": c[1], "bad_row": (c[2][1] if isinstance(c[2], tuple) else abs(c[2])) if c[2] else None, "bad_row_is": "an unterminated quote" if isinstance(c[2], tuple) else ("a blank line" if c[2] and c[2] < 0 else "a bad cell"), "validate_until": c[3]}, function="validio.rows / validio.validate / applications.main", unit="C07.sweep")]
         finally:
             shutil.rmtree(tmp, ignore_errors=True)
     return NativeUnit("C07.sweep", "bounded sweep of the header/limit window through both APIs and the command line", ["C07"], run, kind="bounded")
@@ -294,11 +314,14 @@ def unit_c18_table():
                 if cid == "rejected": want = 1
                 elif cid == "missing": want = 3
                 else:
-                    want = 0
+                    # the statement: 0 iff every file is accepted by the programmatic API (with the same validation limit), 1 if one is rejected, 3 when a file cannot be read
+                    from cutplace import interface, validio, errors
+                    want = 0; limit = None if until in (None, "-1") else int(until)
                     for f in fl:
-                        code = files[f][1]
-                        if until == "0" and code == 1: code = 0
-                        if until == "1" and code == 1: code = 0          # the offending row is row 2 in both rejected files
+                        try: validio.validate(interface.Cid(cids[cid]), files[f][0], validate_until=limit); code = 0
+                        except errors.DataError: code = 1
+                        except OSError: code = 3
+                        if limit is None and code != files[f][1]: return {"expected": "the API's verdict %d on file %r (table of this check)" % (files[f][1], f), "observed": code}
                         if code == 3: want = 3; break
                         want = max(want, code)
                 return None if rc == want else {"expected": "exit %r" % (want,), "observed": "exit %r" % (rc,)}
